@@ -185,7 +185,7 @@ theorem scanCommodityOrText_shift (C : Classes) (pre' : Bytes) (z : Z) :
 
 theorem scanInLine_shift (C : Classes) (pre' : Bytes) (z : Z) :
     scanInLine C (z.shift k (0x0A :: pre')) = shiftR k (0x0A :: pre') (scanInLine C z) := by
-  simp only [scanInLine, skipSpaces_shift, shift_after, peekRune_shift]
+  simp only [scanInLine, scanInLineAt, skipSpaces_shift, shift_after, peekRune_shift]
   cases (skipSpaces z).after with
   | nil => simp
   | cons ch t =>
